@@ -23,7 +23,6 @@ where
     let mut res: crate::layouts::VmpPMat<&mut [u8], BE> = pmat.to_mut();
     let a: MatZnx<&[u8]> = mat.to_ref();
 
-    #[cfg(debug_assertions)]
     {
         assert_eq!(a.n(), res.n());
         assert_eq!(
@@ -62,7 +61,6 @@ pub(crate) fn vmp_prepare_core<REIM>(
     let m: usize = table.m();
     let n: usize = m << 1;
 
-    #[cfg(debug_assertions)]
     {
         assert!(n >= 8);
         assert_eq!(mat.len(), n * nrows * ncols);
@@ -111,7 +109,6 @@ where
     let cols: usize = pmat.cols_in();
     let size: usize = a.size().min(pmat.rows());
 
-    #[cfg(debug_assertions)]
     {
         assert!(tmp_bytes.len() >= vmp_apply_dft_tmp_bytes(n, size, pmat.rows(), cols));
         assert!(a.cols() <= cols);
@@ -154,7 +151,6 @@ where
     let a: VecZnxDft<&[u8], BE> = a.to_ref();
     let pmat: VmpPMat<&[u8], BE> = pmat.to_ref();
 
-    #[cfg(debug_assertions)]
     {
         assert_eq!(res.n(), pmat.n());
         assert_eq!(a.n(), pmat.n());
@@ -195,7 +191,6 @@ fn vmp_apply_dft_to_dft_core<const OVERWRITE: bool, REIM>(
 ) where
     REIM: ReimArith + Reim4BlkMatVec,
 {
-    #[cfg(debug_assertions)]
     {
         assert!(n >= 8);
         assert!(n.is_power_of_two());
